@@ -181,7 +181,10 @@ def gen_layer(r: Any, name: str) -> G.J:
         if r.random() < 0.45:
             use_shared = True
             nnames.append("nr_shared")
-        services.append({"name": f"svc{i}", "request": f"rq{i}", "pos": pnames, "neg": nnames,
+        services.append({"name": (ODD_NAMES[(sid + i) % len(ODD_NAMES)] if r.random() < 0.12 and
+                                  not any(x["name"] == ODD_NAMES[(sid + i) % len(ODD_NAMES)]
+                                          for x in services) else f"svc{i}"),
+                         "request": f"rq{i}", "pos": pnames, "neg": nnames,
                          "semantic": r.choice([None, "FUNCTION", "SESSION"])})
     if use_shared:
         neg.append(shared_neg)
@@ -191,10 +194,17 @@ def gen_layer(r: Any, name: str) -> G.J:
             "xml_tail": comparam_refs_xml(cps), "ncp": len(cps)}
 
 
+#: short names that are valid in ODX but are not identical to the key under which a
+#: NamedItemList files them (python keywords, list members, leading digits)
+ODD_NAMES = ["class", "index", "copy", "count", "sort", "from", "items", "pop", "keys", "import",
+             "2nd_layer", "0x10_session"]
+
+
 def gen_doc(r: Any, idx: int) -> G.J:
-    layers = [gen_layer(r, f"L{idx}a")]
+    odd = r.sample(ODD_NAMES, 2)
+    layers = [gen_layer(r, odd[0] if r.random() < 0.2 else f"L{idx}a")]
     if r.random() < 0.25:
-        layers.append(gen_layer(r, f"L{idx}b"))
+        layers.append(gen_layer(r, odd[1] if r.random() < 0.3 else f"L{idx}b"))
     return {"name": f"doc{idx}", "layers": layers}
 
 
